@@ -148,7 +148,14 @@ def run(E: Engine, rep: Report, tier: str) -> dict:
         raise AnalysisError("anchor: modify_eom_setpoint no longer calls _phase_shift")
     for l in pcs:
         a0 = arg(l, 0)
-        m = has(a0, "Q_old.calc_phase_drift(Q_b.ti) + Q_new.calc_phase_drift(Q_b.tf)") if a0 is not None else None
+        # the old block's drift is evaluated at the instant the new drift starts (new.ti = the channel's end before the
+        # buffer): when a buffer is added that is the buffer's ti, and when none is (empty channel) the last slot is the
+        # initial target slot whose ti is the -1 sentinel -- not a time
+        m = has(a0, "Q_old.calc_phase_drift(Q_new.ti) + Q_new.calc_phase_drift(Q_b.tf)") if a0 is not None else None
+        stale = has(a0, "Q_old.calc_phase_drift(Q_b.ti) + Q_new.calc_phase_drift(Q_b.tf)") if a0 is not None and m is None else None
+        if stale is not None and is_(stale["Q_b"], "self._last(channel)") is not None:
+            rep.violation("FLOW", "Sequence.modify_eom_setpoint|old-drift-until-the-new-drift-starts", "modify_eom_setpoint evaluates the old setpoint's drift at `self._last(channel).ti`: on an empty channel no buffer is added, the last slot is the initial target slot and its ti is the -1 sentinel, so the phase reference moves by -detuning_off_old * 1e-3 rad although no time has elapsed (enable/disable/add_eom_pulse give exactly 0 there)", E.where(mes, l.node))
+            m = stale
         ok = m is not None and mentions(m["Q_old"], "_get_last_eom_pulse_phase_drift") and unobj(m["Q_new"])[0] == "call" and unobj(m["Q_new"])[1] == ("name", "_PhaseDriftParams") and is_(m["Q_b"], "self._last(channel)") is not None
         rep.check(ok, "FLOW", "Sequence.modify_eom_setpoint|old-drift-until-buffer-start+new-drift-until-buffer-end", "old.calc_phase_drift(buffer.ti) + new.calc_phase_drift(buffer.tf)", f"the phase correction of modify_eom_setpoint is `{sh(a0, 200)}`: it must be the old setpoint's drift up to the start of the buffer plus the new setpoint's drift up to its end", E.where(mes, l.node))
     # who may build drift parameters: the two methods that open a block (drift counted from the buffer start) and the
